@@ -12,6 +12,9 @@
 // (world.go chainEvent), and after a restart on a damaged mempool.dmp (crashload.go).
 // families.go: blocks undone while the sorted list is live (`undo slow`), and pools whose records have aged to both
 // sides of the expiry limit before they are saved / reloaded / mined from / finally expired.
+// boundaries.go: the guards of processTx from both sides (coinbase maturity 98/99/100/101 confirmations, output index =
+// / > number of outputs of a pooled / confirmed / rejected parent), worlds with AllowMemInputs off (NOT_MINED), the real
+// usif.LoadRawTx on transactions the pool already has, and orphans over long chains of staged parents (txAccepted's loop).
 package main
 
 import (
@@ -1046,10 +1049,12 @@ func scenarios(r *vlib.Run) []scenario {
 		scenario{"corpus:coinbase-boundary", scCoinbaseBoundary, false, noOpt},
 		scenario{"corpus:vout-boundary", scVoutBoundary, false, noOpt},
 		scenario{"corpus:not-mined", scNotMined, false, memOff},
+		scenario{"corpus:not-mined-notfullrbf", scNotMined, true, memOff},
 		scenario{"corpus:loadraw-pooled", scLoadRawPooled, false, noOpt},
 		scenario{"corpus:deep-orphan-20", scDeepOrphan20, false, noOpt},
 		scenario{"corpus:deep-orphan-20-ring128", scDeepOrphan20, false, worldOpt{ring: 128}},
 		scenario{"corpus:deep-orphan-k", scDeepOrphanK, false, worldOpt{ring: 128}},
+		scenario{"corpus:deep-orphan-k-ring24", scDeepOrphanK, false, noOpt},
 		scenario{"corpus:deep-orphan-k-nomem", scDeepOrphanK, false, memOff},
 	)
 	return l
@@ -1106,6 +1111,9 @@ func main() {
 		"a single replacement whose batch of REPLACED records alone overruns the reject ring (a root with >= ringCap-1 descendants enumerated in Go map order): which records survive is map-order dependent; the pool side and the property predicate are still judged there, then the scenario ends (hit gen:replaced-batch-overruns-reject-ring)",
 		"several serializations of one txid (witness-malleated twins) are outside the theorems' id_fun: the model is told the serialization in use before every operation and every divergence is reported, the property predicate is judged on the real pool",
 		"wall-clock time: the model has no clock; the harness sets the Lastseen of pooled records itself (ages to both sides of TXPool.ExpireInDays = 14 days, never within 10 minutes of the limit), keeps its own ledger of them (a re-announcement or a new pool residency makes a record fresh) and hands the model the ledger's expired keys at every expiry tick; records it has not aged were seen during the run (seconds ago)",
+		"the local path is the real usif.LoadRawTx (raw bytes in, its message out); network.ReceivedBlocks holds a record for every block of the index, as client/main.go arranges at start-up (GetAverageFee reads the tip's)",
+		"CFG.TXPool.AllowMemInputs is on in most worlds and off in the not-mined corpus worlds and one random world in six; CFG.TXPool.RejectRecCnt is 24 (below the 100 the client's configuration allows, so that the ring wraps) except in the deep-orphan worlds with 128",
+		"the confirmed side of the predicate (input is an unspent confirmed output / pooled tx already in the chain) asks the node's UTXO db output by output (UnspentGet, TxPresent) instead of scanning it",
 		"a block is undone either inside BlockCommitInProgress(true)…(false) (client/main.go, text-UI `undo`) or with sorting enabled (text-UI `undo slow`: UndoLastBlock, then BlockCommitInProgress(false)); blocks are always CONNECTED inside the bracket (no caller does otherwise)",
 	}
 	base := r.Rng
